@@ -6,8 +6,9 @@
    A schedule is any list of (thread, choice); a step of a parked thread is a spurious
    wake-up; counters wrap mod 2^32 explicitly.  The count theorems hold for ALL
    schedules and any number of threads (by invariant).  Two statements of the property
-   are false of the code: explicit schedules, replayed on the real sema_llgo.go by
-   props/C11/check.py on every run. *)
+   that used to be false of the code (F7: notifyListWait returned without a notify;
+   semaAcquire slept on a positive count after a lost CAS race) are repaired in the
+   modelled code; their former witness schedules are kept as Examples. *)
 From LLGoV Require Import Lib.Common C11.Model C11.Proofs.
 Local Open Scope N_scope.
 
@@ -35,53 +36,67 @@ Example sema_nontrivial :
   (s_val s, s_acq s, s_rel s, s_waiters s) = (1, 1, 1, 1).
 Proof. reflexivity. Qed.
 
-(* no lost wake-up is FALSE of semaAcquire: after losing a CompareAndSwap race it
-   goes to sleep without re-reading the count.  Final state: nobody can run, thread
-   0 is parked inside semaAcquire, the count is 1. *)
-Theorem sema_no_lost_wakeup_refuted :
-  exists v0 progs sc, let s := s_run sc (s_init v0 progs) in
-    (forall t th, nth_error (s_ths s) t = Some th -> s_enabled s t th = false) /\
-    s_val s = 1 /\ s_parked s 0 = true /\
-    exists th, nth_error (s_ths s) 0 = Some th /\ sprog th = [SAcq] /\ s_pc th = QW.
-Proof.
-  exists 1, [[SAcq]; [SRel; SAcq]],
-    [(0,0);(1,0);(0,0);(0,0);(1,0);(1,0);(0,0);(0,0);(1,0);(1,0);(0,0)]%nat.
-  exact sema_parks_positive.
-Qed.
-Print Assumptions sema_no_lost_wakeup_refuted.
+(* semaAcquire goes to sleep only after reading the count as 0 while holding the
+   state mutex (the former defect - sleeping after a lost CompareAndSwap race with the
+   count still positive - is repaired): in EVERY state, a step that puts the thread
+   into the wait queue saw s_val = 0.  Partial: the global no-lost-wake-up statement
+   over schedules (no state with positive count, a parked acquirer and nobody
+   runnable) is checked by the harness oracle on the real code, not proved. *)
+Theorem sema_parks_only_on_zero_partial : forall s t c s',
+  s_step s (t, c) = Some s' -> s_parked s t = false -> s_parked s' t = true ->
+  s_val s = 0.
+Proof. exact sema_parks_on_zero. Qed.
+Print Assumptions sema_parks_only_on_zero_partial.
 
-(* F7: Cond.Wait returns only after a Signal/Broadcast - FALSE of notifyListWait.
-   Two waiters, no notifier in any program, no wrap-around: the second waiter
-   (ticket 1) has completed its wait while l.notify = 0 (less32 1 0 = false). *)
-Theorem notify_wait_returns_only_after_notify_refuted :
-  exists sc, let s := n_run sc (n_init 0 [[NWait]; [NWait]]) in
-    n_notify s = 0 /\ n_wrapped s = false /\
-    exists th, nth_error (n_ths s) 1 = Some th /\ nprog th = [] /\ n_done th = 1%nat /\
-               n_tickets th = [1] /\ less32 1 (n_notify s) = false.
-Proof. exists [(0,0);(0,0);(0,0);(0,0);(1,0);(1,0);(1,0);(1,0)]%nat. exact f7_wait_returns. Qed.
-Print Assumptions notify_wait_returns_only_after_notify_refuted.
+Example former_lost_wakeup_schedule_now_completes :
+  let s := s_run [(0,0);(1,0);(0,0);(0,0);(1,0);(1,0);(0,0);(0,0);(1,0);(1,0);(0,0);(0,0);(0,0)]%nat
+                 (s_init 1 [[SAcq]; [SRel; SAcq]]) in
+  map s_done (s_ths s) = [1; 2]%nat /\ s_val s = 0 /\ s_waitq s = [].
+Proof. exact former_sema_schedule_completes. Qed.
 
-(* NotifyAll releases every earlier waiter - partial: two one-step facts that hold in
-   EVERY state (reachable or not).  (1) the Broadcast step of NotifyAll empties the
-   wait queue and frees the mutex; (2) a woken waiter that gets the mutex completes
-   its call after two own steps unless l.notify equals its ticket (the code's
-   criterion), in which case it parks again.  Not proved: the global statement over
-   schedules (needs the mutex-ownership invariant); the quantified property is
-   covered by the harness oracle notify-lost-wakeup on the real code. *)
-Theorem notify_all_wakes_every_waiter_partial : forall s t c th rest,
-  nth_error (n_ths s) t = Some th -> nprog th = NAll :: rest -> n_pc th = MA3 ->
+(* F7 repaired - Cond.Wait returns only after a Signal/Broadcast: under every
+   schedule, every completed notifyListWait returned with its ticket below l.notify
+   in Go's wrap-aware order (n_rets records (ticket, l.notify at return)); l.notify
+   only moves by NotifyOne (+1, when it differs from l.wait) and NotifyAll (:= l.wait) *)
+Theorem notify_wait_returns_only_after_notify : forall v0 progs sc t th tk nt,
+  nth_error (n_ths (n_run sc (n_init v0 progs))) t = Some th ->
+  In (tk, nt) (n_rets th) -> less32 tk nt = true.
+Proof. exact wait_returns_notified. Qed.
+Print Assumptions notify_wait_returns_only_after_notify.
+
+Example former_f7_schedule_now_waits :
+  let s := n_run [(0,0);(0,0);(0,0);(0,0);(1,0);(1,0);(1,0);(1,0)]%nat (n_init 0 [[NWait]; [NWait]]) in
+  n_waitq s = [0; 1]%nat /\ map n_done (n_ths s) = [0; 0]%nat.
+Proof. exact former_f7_schedule_parks_both. Qed.
+
+Example notify_nontrivial :
+  let s := n_run [(0,0);(0,0);(0,0);(0,0);(1,0);(1,0);(1,0);(1,0);(1,0);(1,0);(0,0);(0,0)]%nat
+                 (n_init 4294967295 [[NWait]; [NOne]]) in
+  map n_rets (n_ths s) = [[(4294967295, 0)]; []] /\ n_wrapped s = true.
+Proof. vm_compute. auto. Qed.
+
+(* NotifyAll / NotifyOne release the waiters - partial: one-step facts that hold in
+   EVERY state.  (1) the Broadcast step of NotifyAll and of NotifyOne empties the wait
+   queue and frees the mutex; (2) a woken waiter that gets the mutex completes its call
+   after two own steps iff its ticket is below l.notify, otherwise it parks again.
+   Not proved: the global statement over schedules (needs the mutex-ownership
+   invariant); it is covered by the harness oracles notify-lost-wakeup and
+   notify-all-left-earlier-waiter-blocked on the real code. *)
+Theorem notifier_wakes_every_waiter_partial : forall s t c th o rest,
+  nth_error (n_ths s) t = Some th -> nprog th = o :: rest ->
+  (o = NAll /\ n_pc th = MA3) \/ (o = NOne /\ n_pc th = MA4) ->
   n_parked s t = false ->
   exists s', n_step s (t, c) = Some s' /\ n_waitq s' = [] /\ n_mu s' = None.
-Proof. exact notify_all_bcast_empties. Qed.
-Print Assumptions notify_all_wakes_every_waiter_partial.
+Proof. exact notifier_bcast_empties. Qed.
+Print Assumptions notifier_wakes_every_waiter_partial.
 
 Theorem notify_woken_waiter_returns_partial : forall s t c c' th rest,
   nth_error (n_ths s) t = Some th -> nprog th = NWait :: rest -> n_pc th = MW ->
   n_parked s t = false -> n_mu s = None ->
   exists s1 s2 th2, n_step s (t, c) = Some s1 /\ n_step s1 (t, c') = Some s2 /\
     nth_error (n_ths s2) t = Some th2 /\
-    (if n_notify s =? n_ticket th
-     then n_parked s2 t = true /\ n_pc th2 = MW
-     else nprog th2 = rest /\ n_done th2 = S (n_done th)).
+    (if less32 (n_ticket th) (n_notify s)
+     then nprog th2 = rest /\ n_done th2 = S (n_done th)
+     else n_parked s2 t = true /\ n_pc th2 = MW).
 Proof. exact woken_waiter_returns. Qed.
 Print Assumptions notify_woken_waiter_returns_partial.
